@@ -257,8 +257,9 @@ func ruleEnvelopeErrorOnlyFromJSON(c *chk.Ctx) {
 		return
 	}
 	n := 0
-	for _, r := range ir.Returns(lp) {
-		if ir.IsNilConst(ir.ReturnResult(r, 0)) {
+	for _, ra := range effectiveResults(c, lp, 0, 0) {
+		r := ra.r
+		if ir.IsNilConst(ir.ReturnResult(r, ra.idx)) {
 			continue
 		}
 		n++
